@@ -282,7 +282,7 @@ class Inliner:
             out.extend(self.stmt(f, s, depth))
         return out
 
-    def prepared(self, f, call, depth):
+    def prepared(self, f, call, depth, target=None):
         """(callee Func, substituted deep copy of its body, pre-statements) or None"""
         r = self.callee_of(f, call)
         if r is None:
@@ -296,6 +296,16 @@ class Inliner:
         if b is None:
             return None
         mapping, pre, renames = b
+        # `t = _helper(..)` where the helper returns its local `r`: call that local `t` (no alias t = r__helper)
+        if target is not None:
+            assigned = _assigned_names(g.node)
+            params = {x.arg for x in g.node.args.posonlyargs + g.node.args.args + g.node.args.kwonlyargs}
+            for r_ in _returns(body):
+                if isinstance(r_.value, ast.Name) and r_.value.id in assigned and r_.value.id not in params \
+                        and target not in (assigned - {r_.value.id}) and target not in params \
+                        and target not in mapping and not any(isinstance(x, ast.Name) and x.id == target
+                                                              for a_ in call.args for x in ast.walk(a_)):
+                    renames[r_.value.id] = target
         tr = _Subst(mapping, renames)
         new = [tr.visit(copy.deepcopy(s)) for s in body]
         return g, new, pre
@@ -369,7 +379,9 @@ class Inliner:
         val = getattr(s, 'value', None) if isinstance(s, (ast.Assign, ast.AnnAssign, ast.Return, ast.Expr)) else None
         if not isinstance(val, ast.Call):
             return None
-        p = self.prepared(f, val, depth)
+        tgt = s.targets[0].id if isinstance(s, ast.Assign) and len(s.targets) == 1 \
+            and isinstance(s.targets[0], ast.Name) else None
+        p = self.prepared(f, val, depth, tgt)
         if p is not None:
             g, body, pre = p
             rets = _returns(body)
@@ -403,6 +415,9 @@ class Inliner:
         return None
 
     def rebind(self, s, e):
+        if isinstance(s, ast.Assign) and len(s.targets) == 1 and isinstance(s.targets[0], ast.Name) \
+                and isinstance(e, ast.Name) and e.id == s.targets[0].id:
+            return ast.Pass()       # t = t
         if isinstance(s, ast.Assign):
             return ast.Assign(targets=copy.deepcopy(s.targets), value=e, lineno=0)
         if isinstance(s, ast.AnnAssign):
